@@ -215,7 +215,7 @@ fn check_one(text: &str) -> Result<Outcome, Failure> {
     }
 }
 
-pub const LONG_CHAIN_SIGNATURE: &str = "abort: a long operator chain without bracket nesting ends the process (stack overflow)";
+pub const LONG_CHAIN_SIGNATURE: &str = "abort: a long operator chain without bracket nesting ends the process (stack overflow)"; // (also: long `[]` type suffix, long JSON path, CASE nested through ELSE)
 
 /// child side of `--parse-probe <file>`: parse the text on the main thread (8 MiB stack) with the C14 predicate
 pub fn parse_probe_main(path: &str) -> i32 {
@@ -309,6 +309,25 @@ impl Property for C14 {
             if ctx.excluded("c14_long_chain") {
                 // open known finding: chains beyond a few hundred terms overflow the stack
                 n = n.min(150);
+            }
+            match t.draw(9) {
+                6 => {
+                    // a column type with a long `[]` suffix (bracket nesting depth 1)
+                    case.text = format!("CREATE TABLE t(line = '(.*)', line[1] => x INT{});", "[]".repeat(n * 10));
+                    return case;
+                }
+                7 => {
+                    // a long JSON path
+                    case.text = format!("CREATE TABLE t({{ {} }} => x INT);", ".a".repeat(n * 10));
+                    return case;
+                }
+                8 => {
+                    // CASE nested through ELSE (no brackets at all)
+                    let depth = n.min(3000);
+                    case.text = format!("SELECT {}0{} FROM t", "CASE WHEN x = 1 THEN 1 ELSE ".repeat(depth), " END".repeat(depth));
+                    return case;
+                }
+                _ => {}
             }
             let chain = match t.draw(6) {
                 0 => (0..n).map(|i| format!("x = {}", i)).collect::<Vec<_>>().join(" OR "),
